@@ -262,6 +262,30 @@ SPECS += [
          conds={"np.array_equal(d_shp[::rev], in_shp[:shp_len])": "(Py.stepSlice d_shp rev = Py.takeI in_shp shp_len)"}, **_CANON),
 ]
 
+# ---- sdk/adapter.py : the metadata exchange through a pass-through adapter (C07) -----------------------------------
+# an `Info` is an opaque value; `self._source.get_info` is a parameter (answers with the delivered info or raises)
+_SRCINFO = "Lean:(α → Except Err α)"
+_ADF = {"_input_info": "Opt[Val]", "_output_info": "Opt[Val]"}
+SPECS += [
+    dict(lean="Adapter_exchange_info", path="sdk/adapter.py", qual="Adapter.exchange_info", group="AdapterInfo",
+         fields=_ADF, params={"info": "Opt[Val]"}, extra_params={"srcGetInfo": _SRCINFO}, ret="Val",
+         assume_false=["not isinstance(info, Info)"], locals={"in_info": "Val"},
+         calls={"self._source.get_info": {"lean": "srcGetInfo", "args": [0], "argtypes": ["Val"], "ret": "Val"}},
+         raises={"FinamMetaDataError": "Err.metaErr"}, props=["C07"]),
+    dict(lean="Adapter__get_info", path="sdk/adapter.py", qual="Adapter._get_info", group="AdapterInfo",
+         fields=_ADF, params={"info": "Opt[Val]"}, extra_params={"srcGetInfo": _SRCINFO}, ret="Val",
+         calls={"self.exchange_info": {"lean": "Adapter_exchange_info", "args": ["self._input_info", "self._output_info", 0, "srcGetInfo"],
+                                       "argtypes": ["Opt[Val]", "Opt[Val]", "Opt[Val]", _SRCINFO], "ret": "Val",
+                                       "updates": ["_input_info", "_output_info"]}},
+         props=["C07"]),
+    dict(lean="Adapter_get_info", path="sdk/adapter.py", qual="Adapter.get_info", group="AdapterInfo",
+         fields=_ADF, params={"info": "Opt[Val]"}, extra_params={"srcGetInfo": _SRCINFO}, ret="Val",
+         calls={"self._get_info": {"lean": "Adapter__get_info", "args": ["self._input_info", "self._output_info", 0, "srcGetInfo"],
+                                   "argtypes": ["Opt[Val]", "Opt[Val]", "Opt[Val]", _SRCINFO], "ret": "Val",
+                                   "updates": ["_input_info", "_output_info"]}},
+         props=["C07"]),
+]
+
 INTEG_COMMON = dict(
     path="adapters/time_integration.py", group="Integ", ret="Rat",
     calls={"self._unpack": "id", "interpolate": {"lean": "interpolate", "args": [0, 1, 2], "ret": "Rat"}},
